@@ -8,7 +8,10 @@ package main
 //   calc  one parameter set, CalculateBaseFee evaluated for a list of stored
 //         gas figures (the main one and its neighbours, ascending);
 //   gas   EndBlock's stored figure for (gasWanted, gasUsed, MinGasMultiplier);
-//   seq   a block sequence: BeginBlock / EndBlock per block.
+//   seq   a block sequence: BeginBlock / EndBlock per block;
+//   real  a block sequence on a fresh application with a finite consensus
+//         MaxGas, the gas figure produced by real signed transactions delivered
+//         through BaseApp (feemarket_real.go).
 //
 // The oracle evaluates the property text with big.Int / big.Rat, independently
 // of the Coq model: the EIP-1559 formula, the floor, monotonicity along the
